@@ -261,6 +261,10 @@ def shared(ctx):
     from rules.engine import core
     from rules.props import c12
     core.import_rules(ctx, [c12.t2_t3_tables, c12.t4_literals], "X12")
+    # 'evaluates to a true value when run against that transaction and that coin's own spending environment': the verdict is a function of these alone —
+    # no state carried from one execution to the next inside the interpreter (C10.R4), and SIGEOK verifies against the key it is handed (C10.R10)
+    from rules.props import c10
+    core.import_rules(ctx, [c10.r4_determinism, c10.r10_sigeok_bounds], "X10")
 
 
 RULES = [r1_no_bypass, r2_verdict, r3_environment, r4_heap_layout, shared]
